@@ -209,7 +209,7 @@ Consistent ==
 IndexesAgree == phase = "idle" => Consistent
 \* the reason recovery is never skipped: an inconsistent datastore always carries the dirty flag,
 \* and an index entry never outlives / precedes its record (rebuildIndexes cannot remove one)
-DirtyCovers == ~Consistent => flag = "1"
+DirtyCovers == flag # "1" => Consistent
 NoDanglingIndex == /\ \A e \in ixR \cup ixD : \E p \in recs : p.id = e[2]
                    /\ \A e \in ixN : \E p \in recs : p.id = e[2]
 
@@ -217,6 +217,6 @@ NoDanglingIndex == /\ \A e \in ixR \cup ixD : \E p \in recs : p.id = e[2]
 PinnedPreserved       == phase = "idle" => keep \subseteq PinnedSet
 PinnedPreservedModDev == phase = "idle" => (keep \ PinnedSet) \subseteq excused
 \* what Dev_C23_RebuildCleansEarly breaks once it has been used in a history
-IndexesAgreeModDev    == IndexesAgree \/ EarlyDev \in rundev
-DirtyCoversModDev     == DirtyCovers \/ EarlyDev \in rundev
+IndexesAgreeModDev    == EarlyDev \in rundev \/ IndexesAgree
+DirtyCoversModDev     == EarlyDev \in rundev \/ DirtyCovers
 =============================================================================
